@@ -255,6 +255,17 @@ class FakeNumpyRandom(Fake):
             return CoinFloat(self.ch, "np.rand")
         return self._menu("rand", shape)
 
+    def randn(self, *shape):
+        """standard normal draws: a menu ('randn'), or the rand-menu with both signs (a normal variate can be negative)"""
+        if "randn" in self.menus:
+            return self._menu("randn", shape)
+        m = self.menus.get("rand")
+        if m is None or not shape:
+            raise UnownedRandomness("np.random.randn%r needs a value menu" % (shape,))
+        opts = m(shape) if callable(m) else m
+        opts = [list(o) for o in opts] + [[-x for x in o] for o in opts]
+        return self.np.array(opts[self.ch.choose(len(opts), "np.randn-menu")], dtype=float)
+
     def randint(self, low, high=None, size=None):
         if high is None:
             low, high = 0, low
